@@ -444,6 +444,19 @@ def run(ctx) -> None:
     ctx.analysed(rar)
     sites = [s for s in sub.find_sites(rar) if not sub.is_literal_key(s)]
     ctx.floor("C05.R5-anchored-rewrite", len(sites), 1, "substitution sites in rewrite_all_references")
+    # one pass: the string that is searched is not the result of an earlier substitution - an assignment of the searched string from a
+    # substitution of itself does not sit inside a loop (the text inserted for a binding would be rewritten again on behalf of the
+    # references processed after it, depending on which comes first in the text)
+    for a in source.walk_own(rar):
+        if isinstance(a, ast.Assign) and len(a.targets) == 1 and isinstance(a.targets[0], ast.Name) and isinstance(a.value, ast.Call) \
+                and last_attr(a.value) in ("sub", "subn", "replace") and any(isinstance(x, ast.Name) and x.id == a.targets[0].id for x in ast.walk(a.value)):
+            loops_ = [x for x in source.ancestors(a) if isinstance(x, (ast.For, ast.While)) and any(x is y for y in ast.walk(rar))]
+            ctx.ob("C05.R5-anchored-rewrite", a, not loops_,
+                   "the references of a string are substituted in one pass" if not loops_ else
+                   "rewrite_all_references rewrites %s inside the loop over its references: text inserted for a binding is rewritten a second time "
+                   "when it is spelled like a reference processed later - '--outer inp:ref --inner stage0.B:ref' (inp bound to the package's "
+                   "stage0.B, the document has its own B) becomes '--outer stage1.B:ref --inner stage1.B:ref', with the two in the other order "
+                   "the result is right" % a.targets[0].id, construct="rewrite_all_references: one substitution pass")
     for s in sites:
         check_site(ctx, "C05.R5-anchored-rewrite", rar, s, "a reference found in a looped component")
 
